@@ -170,10 +170,10 @@ var synthTable = map[string]synth{
 	"uint64":          {Benign: "uint64(1)"},
 	"float64":         {Benign: "1.5"},
 	"bool":            {Benign: "true"},
-	"rune":            {Benign: "'k'"},
-	"int32":           {Benign: "'k'"},
-	"byte":            {Benign: "'k'"},
-	"uint8":           {Benign: "'k'"},
+	"rune":            {Benign: "rune('k')"},
+	"int32":           {Benign: "rune('k')"},
+	"byte":            {Benign: "byte('k')"},
+	"uint8":           {Benign: "byte('k')"},
 	"error":           {Carrier: "errors.New($M)", Benign: `errors.New("k")`, Imports: []string{"errors"}},
 	"any":             {Carrier: "any($M)", Benign: "any(1)"},
 	"interface{}":     {Carrier: "any($M)", Benign: "any(1)"},
